@@ -485,3 +485,33 @@ func hexs(b []byte) string {
 	}
 	return string(o)
 }
+
+// DecodeEvent decodes a stored Any into the event struct by its type URL (the harness' own decoding;
+// UnpackEvent only works on Anys whose cached value was filled by the interface registry).
+func DecodeEvent(any *codectypes.Any) mhub2types.ExternalEvent {
+	if any == nil {
+		return nil
+	}
+	var ev interface {
+		mhub2types.ExternalEvent
+		Unmarshal([]byte) error
+	}
+	switch any.TypeUrl {
+	case "/mhub2.v1.SendToHubEvent":
+		ev = &mhub2types.SendToHubEvent{}
+	case "/mhub2.v1.TransferToChainEvent":
+		ev = &mhub2types.TransferToChainEvent{}
+	case "/mhub2.v1.BatchExecutedEvent":
+		ev = &mhub2types.BatchExecutedEvent{}
+	case "/mhub2.v1.ContractCallExecutedEvent":
+		ev = &mhub2types.ContractCallExecutedEvent{}
+	case "/mhub2.v1.SignerSetTxExecutedEvent":
+		ev = &mhub2types.SignerSetTxExecutedEvent{}
+	default:
+		return nil
+	}
+	if err := ev.Unmarshal(any.Value); err != nil {
+		return nil
+	}
+	return ev
+}
